@@ -581,7 +581,13 @@ func TestLoginRecord(t *testing.T) {
 	e := vh.NewEnum(t, "TestLoginRecordLengths", runLogin)
 	if !e.Skip() {
 		mk := func(n int) string { return string(bytes.Repeat([]byte{'a' + byte(n%26)}, n)) }
+		lengths := []int{}
 		for n := 0; n <= 31; n++ {
+			lengths = append(lengths, n)
+		}
+		// oversized far beyond the slot, incl. lengths whose low byte is a legal length again
+		lengths = append(lengths, 32, 60, 100, 254, 255, 256, 257, 270, 286, 287, 300, 511, 512, 513, 542, 543, 768, 1000, 65536, 65550)
+		for _, n := range lengths {
 			for field := 0; field < 7; field++ {
 				c := loginCase{Host: "h", User: "u", Pass: "p", App: "a", Serv: "s", Lang: "l", Charset: "c", Encrypt: field%2 == 0}
 				s := mk(n)
@@ -610,7 +616,7 @@ func TestLoginRecord(t *testing.T) {
 			e.Do(loginCase{Host: "h", User: "u", Pass: "secret-pw", App: "a", Serv: "s", Lang: "l", Charset: "c", EncryptID: id})
 		}
 		vh.Sample("login-record", loginCase{Host: "host", User: "sa", Pass: "secret", App: "app", Serv: "srv", Lang: "us_english", Charset: "utf8", Encrypt: true})
-		e.Done("every login field with every length 0..31, singly and all together; every message id 1..40 as LoginConfig.Encrypt")
+		e.Done("every login field with every length 0..31 and oversized lengths 32..65550 (incl. those whose low byte is a legal length again), singly and all together; every message id 1..40 as LoginConfig.Encrypt")
 	}
 	gen := func(rt *rapid.T) loginCase {
 		s := func(l string) string { return pkggen.Str(rt, l, 31) }
@@ -657,4 +663,148 @@ func TestBlobFormat(t *testing.T) {
 	for _, w := range []bool{false, true} {
 		e.Do(blobCase{Wide: w, Name: "b"})
 	}
+}
+
+// ---- capability packages built by a history of Set...Capability calls (the way the library
+// and its users arrive at the package sent with the login: defaults, then switches, some of
+// them redundant): what is written is the set the package itself reports
+
+type capOp struct {
+	Type   int  `json:"type"` // 1 request, 2 response
+	Bit    int  `json:"bit"`
+	Enable bool `json:"enable"`
+}
+
+type capHistCase struct {
+	Req []int   `json:"initial_request"`
+	Res []int   `json:"initial_response"`
+	Ops []capOp `json:"ops"`
+}
+
+func runCapHist(c capHistCase) (f *vh.Failure) {
+	defer func() {
+		if r := recover(); r != nil {
+			f = vh.Failf("C06/capability-panic", "%+v: panic: %v", c, r)
+		}
+	}()
+	var req []tds.RequestCapability
+	var res []tds.ResponseCapability
+	model := map[[2]int]bool{}
+	for _, b := range c.Req {
+		req = append(req, tds.RequestCapability(b))
+		model[[2]int{1, b}] = true
+	}
+	for _, b := range c.Res {
+		res = append(res, tds.ResponseCapability(b))
+		model[[2]int{2, b}] = true
+	}
+	pkg, err := tds.NewCapabilityPackage(req, res, nil)
+	if err != nil {
+		return vh.Failf("C06/capability-bit", "NewCapabilityPackage(%v, %v): %v", c.Req, c.Res, err)
+	}
+	redundant := false
+	for _, op := range c.Ops {
+		if op.Type == 1 {
+			err = pkg.SetRequestCapability(tds.RequestCapability(op.Bit), op.Enable)
+		} else {
+			err = pkg.SetResponseCapability(tds.ResponseCapability(op.Bit), op.Enable)
+		}
+		if err != nil {
+			return vh.Failf("C06/capability-bit", "Set capability %+v: %v", op, err)
+		}
+		if model[[2]int{op.Type, op.Bit}] == op.Enable {
+			redundant = true
+		}
+		model[[2]int{op.Type, op.Bit}] = op.Enable
+	}
+	// the package's own view
+	for k, want := range model {
+		if pkg.HasCapability(tds.CapabilityType(k[0]), k[1]) != want {
+			return vh.Failf("C06/capability-history", "%+v: HasCapability(type %d, %d) = %v after the calls", c, k[0], k[1], !want)
+		}
+	}
+	out := flatch.New(nil)
+	if err := pkg.WriteTo(out); err != nil {
+		return vh.Failf("C06/capability-bit", "WriteTo: %v", err)
+	}
+	got, err := rc.DecodeStream(out.B)
+	if err != nil || len(got) != 1 || got[0].Cap == nil {
+		return vh.Failf("C06/capability-written-layout", "%+v: independent decoder rejects capability package % x: %v", c, out.B, err)
+	}
+	written := map[[2]int]bool{}
+	for _, m := range got[0].Cap.Masks {
+		for n := 0; n < 8*len(m.Mask); n++ {
+			if m.Has(n) {
+				written[[2]int{int(m.Type), n}] = true
+			}
+		}
+	}
+	for k, want := range model {
+		if written[k] != want {
+			return vh.Failf("C06/capability-history", "%+v: capability (type %d, %d) is %v according to the package and %v in what it writes (% x)", c, k[0], k[1], want, written[k], out.B)
+		}
+	}
+	for k := range written {
+		if !model[k] {
+			return vh.Failf("C06/capability-history", "%+v: capability (type %d, %d) is written (% x) but was never enabled", c, k[0], k[1], out.B)
+		}
+	}
+	// and the library reads its own package back to the same set
+	pkgs, ch, err := pkggen.LibDecodeStream(out.B)
+	if err != nil || ch.Left() != 0 || len(pkgs) != 1 {
+		return vh.Failf("C06/capability-decode", "%+v: library cannot read back its capability package % x: %v", c, out.B, err)
+	}
+	back := pkgs[0].(*tds.CapabilityPackage)
+	for k, want := range model {
+		if back.HasCapability(tds.CapabilityType(k[0]), k[1]) != want {
+			return vh.Failf("C06/capability-history", "%+v: capability (type %d, %d) reads back as %v", c, k[0], k[1], !want)
+		}
+	}
+	vh.Label("capability-history")
+	if redundant {
+		vh.Label("capability-history:redundant-call")
+		vh.NonTrivial(fmt.Sprint("caphist", c))
+	}
+	return nil
+}
+
+func TestCapabilityHistories(t *testing.T) {
+	gen := func(rt *rapid.T) capHistCase {
+		var c capHistCase
+		bit := func(typ int) int {
+			if typ == 1 {
+				return rapid.IntRange(1, maxReq).Draw(rt, "reqbit")
+			}
+			return rapid.IntRange(1, maxRes).Draw(rt, "resbit")
+		}
+		for i := rapid.IntRange(0, 4).Draw(rt, "nreq"); i > 0; i-- {
+			c.Req = append(c.Req, bit(1))
+		}
+		for i := rapid.IntRange(0, 3).Draw(rt, "nres"); i > 0; i-- {
+			c.Res = append(c.Res, bit(2))
+		}
+		n := rapid.IntRange(1, 12).Draw(rt, "nops")
+		for i := 0; i < n; i++ {
+			op := capOp{Type: rapid.IntRange(1, 2).Draw(rt, "type"), Enable: rapid.Bool().Draw(rt, "enable")}
+			op.Bit = bit(op.Type)
+			// often aim at a capability that was touched before (redundant or reverting calls)
+			if rapid.Bool().Draw(rt, "again") {
+				switch {
+				case len(c.Ops) > 0:
+					prev := c.Ops[rapid.IntRange(0, len(c.Ops)-1).Draw(rt, "prev")]
+					op.Type, op.Bit = prev.Type, prev.Bit
+				case op.Type == 1 && len(c.Req) > 0:
+					op.Bit = c.Req[0]
+				case op.Type == 2 && len(c.Res) > 0:
+					op.Bit = c.Res[0]
+				}
+			}
+			c.Ops = append(c.Ops, op)
+		}
+		if n <= 4 {
+			vh.Sample("capability-history", c)
+		}
+		return c
+	}
+	vh.Check(t, "TestCapabilityHistories", vh.N(3000, 60000), gen, runCapHist)
 }
